@@ -70,14 +70,19 @@ def extract(table, cfg_mode, expanded, enc, blocked, nrows, maxlen, via_csv=Fals
         # the table index may or may not list the requested table; expanded rows carry their own table id, so the index plays no part there
         index = choose('index', ['all', 'without-requested']) if expanded else 'all'
         tables = None if index == 'all' else [t for t in SUBID if t != table]
+        # tables may be written in several sections, each closed by its own trailer record: rows after such a record still belong to the table
+        mid_trailer = choose('table_trailer_after_row', [None] + list(range(nrows)))
 
         def rp():
             return {'kind': 'extract', 'args': {'table': table, 'cfg': 'packaged' if pcfg is None else {k: {'start': ev(v['start']), 'end': ev(v['end'])} for k, v in layout.items()},
                                                 'expanded': expanded, 'enc': enc, 'blocked': blocked, 'member': member,
                                                 'lens': [ev(rlen(r[0])) for r in rows], 'index': index,
-                                                'rows': [concretize(r[0], ev) for r in rows]}}
+                                                'rows': [concretize(r[0], ev) for r in rows], 'mid_trailer': mid_trailer}}
         core.set_fallback(rp, 'C18/concretised')
-        f = build_file(m, [r[0] for r in rows], enc, blocked, tables=tables)
+        file_rows = [r[0] for r in rows]
+        if mid_trailer is not None:
+            file_rows.insert(mid_trailer + 1, 'TRAILER RECORD %s  %08d' % (table, mid_trailer + 1))
+        f = build_file(m, file_rows, enc, blocked, tables=tables)
         got = []
         with guard('IpmParamReader', 'C18/exception', rp):
             if via_csv:
@@ -113,14 +118,20 @@ def extract(table, cfg_mode, expanded, enc, blocked, nrows, maxlen, via_csv=Fals
 def refusals():
     def h():
         m = M().mciipm
-        which = choose('case', ['no-trailer', 'other-trailer-only', 'no-config', 'ok'])
+        which = choose('case', ['no-trailer', 'other-trailer-only', 'no-config', 'not-in-caller-config', 'ok', 'ok-caller-config'])
         rows = [data_row(0, 'IP0040T1', False, 50)]
         rp = {'kind': 'refuse', 'args': {'case': which}}
         core.set_fallback(rp, 'C18/concretised')
         extra_rows = ['TRAILER RECORD IP0075T1  00000003'] if which == 'other-trailer-only' else []
         f = build_file(m, extra_rows + [r[0] for r in rows] + extra_rows, 'latin_1', False, with_trailer=(which not in ('no-trailer', 'other-trailer-only')))
+        caller = {'IP0075T1': {'col': {'start': 19, 'end': 22}}, 'IP0190T1': {'col': {'start': 19, 'end': 30}}}
         try:
-            m.IpmParamReader(f, 'IP0040T1' if which != 'no-config' else 'IP9999T1')
+            if which == 'not-in-caller-config':
+                m.IpmParamReader(f, 'IP0040T1', param_config=caller)        # the caller's configuration counts, not the packaged one
+            elif which == 'ok-caller-config':
+                m.IpmParamReader(f, 'IP0075T1', param_config=caller)
+            else:
+                m.IpmParamReader(f, 'IP0040T1' if which != 'no-config' else 'IP9999T1')
             raised = False
         except m.MciIpmDataError:
             raised = True
@@ -128,7 +139,7 @@ def refusals():
             raise
         except Exception as e:
             fail('refusal raised %s instead of the library error' % type(e).__name__, key='C18/refuse', replay=rp)
-        require(raised == (which != 'ok'), 'case %s: %s' % (which, 'refused' if raised else 'accepted'), key='C18/refuse', replay=rp)
+        require(raised == (not which.startswith('ok')), 'case %s: %s' % (which, 'refused' if raised else 'accepted'), key='C18/refuse', replay=rp)
         return {'sample': {'case': which, 'refused': raised}, 'replay': rp}
     return h
 
